@@ -22,7 +22,7 @@ def small_tree(draw, mode):
 
 
 @st.composite
-def scen_cases(draw, kinds=KINDS, comps=("gzip", "zstd", "lz4", "xz", "default")):
+def scen_cases(draw, kinds=KINDS, comps=("gzip", "zstd", "lz4", "xz", "default"), damage=False):
     kind = draw(st.sampled_from(list(kinds)))
     B = 4096
     o = dict(comp=draw(st.sampled_from(list(comps))), X=None, B=B, T=draw(st.booleans()), e=draw(st.booleans()), j=draw(st.sampled_from([1, 1, 2])),
@@ -30,11 +30,21 @@ def scen_cases(draw, kinds=KINDS, comps=("gzip", "zstd", "lz4", "xz", "default")
     case = dict(kind=kind, opts=o)
     # the output file is named relative to the working directory in half of the packer runs
     case["relout"] = draw(st.booleans())
+    # directed input: a tail end, more than a fragment block of other tails, then the same tail again - the packer has to read
+    # the finished fragment block back from its own output file to compare
+    readback = kind in ("gen_dir", "gen_file", "t2s") and draw(st.sampled_from([False, False, False, False, True]))
+    rb_files = []
+    if readback:
+        first = ("rand", draw(st.integers(0, 50)), 0, draw(st.integers(900, 2500)))
+        rb_files = [(b"a0", first)] + [(b"b%d" % i, ("rand", 100 + i, 0, draw(st.integers(1400, 3000)))) for i in range(draw(st.integers(2, 4)))] + [(b"c9", first)]
+        case["profile"] = "frag_readback"
+        o["Q"] = draw(st.sampled_from([1, 3]))     # with the default backlog the first block would still be in flight
+    mk = lambda p, rec: dict(path=p, type="file", mode=0o644, uid=0, gid=0, mtime=0, xattrs={}, content=rec)
     if kind == "gen_dir":
         o.update(keep_time=draw(st.booleans()), keep_xattr=draw(st.booleans()), no_hard_links=False)
-        case.update(mode="dir", nodes=small_tree(draw, "dir"))
+        case.update(mode="dir", nodes=[mk(p, r) for p, r in rb_files] if readback else small_tree(draw, "dir"))
     elif kind == "gen_file":
-        case.update(mode="file", nodes=small_tree(draw, "file"))
+        case.update(mode="file", nodes=[mk(p, r) for p, r in rb_files] if readback else small_tree(draw, "file"))
         ents = [(n["path"], n["xattrs"]) for n in case["nodes"] if n.get("xattrs") and n["type"] != "hlink" and b"\r" not in n["path"]
                 and n["path"] == n["path"].strip() and not n["path"].startswith(b"#")]
         if ents:
@@ -42,8 +52,14 @@ def scen_cases(draw, kinds=KINDS, comps=("gzip", "zstd", "lz4", "xz", "default")
         case["sort"] = draw(st.booleans())
     else:
         ar = draw(tarimg.archives(B=B, max_entries=6, simple_names=False))
+        if readback:
+            ar = dict(entries=[dict(name=p, type="file", mode=0o644, uid=0, gid=0, mtime=0, xattrs={}, data=treemodel.content_bytes(r, B),
+                                    enc=dict(fmt="ustar", num="octal", ostyle=0)) for p, r in rb_files], end_marker=True, global_pax=False, trailing_pad=0)
         case["archive"] = ar
         case["codec"] = draw(st.sampled_from([None, None, "gzip", "xz", "zstd", "bzip2"]))
+        if damage and kind in ("s2t", "rd_cat", "rd_unpack", "diff"):
+            # the image the reader gets has lost its end: reads run into the end of the file and the tool has to fail the same way every time
+            case["img_cut"] = draw(st.sampled_from([0, 0, 0, 0, 1, 100, 4096, 4097, "half"]))
         if kind == "s2t":
             case["s2t_codec"] = draw(st.sampled_from([None, None, "gzip", "xz", "zstd", "bzip2"]))
         if kind == "rd_unpack":
@@ -141,6 +157,12 @@ def prepare(case, d, variant="plain"):
             if r.rc != 0:
                 raise vcommon.Inconclusive("image2 build failed")
         ctx["img2"] = img2
+    cut = case.get("img_cut")
+    if cut:
+        size = os.path.getsize(img)
+        keep = size // 2 if cut == "half" else max(96, size - cut)
+        with open(img, "r+b") as fh:
+            fh.truncate(keep)
     return ctx
 
 
@@ -187,7 +209,7 @@ def run(ctx, rundir, env=None, preload=None, feed_chunk=0, drain_chunk=0, timeou
         cmd = [vcommon.tool(v, "gensquashfs")] + ctx["args"] + ["out.sqfs" if case.get("relout") else out]
     elif kind == "t2s":
         out = os.path.join(rundir, "out.sqfs")
-        cmd = [vcommon.tool(v, "tar2sqfs"), "-q"] + _c(o) + ["-b", str(o["B"]), "-j", str(o["j"])] + (["-T"] if o["T"] else []) + (["-e"] if o["e"] else []) + (["-f"] if ctx.get("force") else []) + ["out.sqfs" if case.get("relout") else out]
+        cmd = [vcommon.tool(v, "tar2sqfs"), "-q"] + _c(o) + ["-b", str(o["B"]), "-j", str(o["j"])] + (["-Q", str(o["Q"])] if o.get("Q") else []) + (["-T"] if o["T"] else []) + (["-e"] if o["e"] else []) + (["-f"] if ctx.get("force") else []) + ["out.sqfs" if case.get("relout") else out]
         stdin = ctx["stdin"]
     elif kind == "s2t":
         cmd = [vcommon.tool(v, "sqfs2tar")] + (["-c", case["s2t_codec"]] if case.get("s2t_codec") else []) + [ctx["img"]]
